@@ -24,6 +24,14 @@ CHECKS = {
                      'positions recomputed from the input text alone (only \\n, \\r\\n, \\r break lines; leading BOM zero width; '
                      'zero-width indentation error leaves sit at the next real leaf).',
                 note='TLC; recorder.', ref='2.4, 3 C03'),
+    'C08': dict(level=MC, tech='TLA+ spec Pgen/Ebnf (bisimulation with the position automaton of the grammar text, FIRST fixpoint, LL(1) verdict) checked by TLC on the exported real tables; GrammarEnum enumerates small grammars',
+                text='Exhaustive for the 9 shipped grammars (every rule, every DFA state, every plan entry, re-exported from the '
+                     'live objects on every run): language equality of each real DFA with the rule text (SameFinal/SameArcs '
+                     'over the reachable product), token->plan tables exactly as specified (PlansExact, NoTokenTwice). '
+                     'Plus every small grammar TLC enumerates (GrammarEnum) through the real generate_grammar: accepted '
+                     'exactly when LL(1), rejected with ambiguity/left-recursion errors otherwise, tables checked as above.',
+                note='TLC; the independent EBNF reader harness/ebnf.py; nullable rules excluded as outside the property.',
+                ref='2.2, 3 C08'),
     'C09': dict(level=MC, tech='TLA+ A-spec TokenStream + TLC trace validation of real token streams; Tree.C09 for prefix splitting',
                 text='Token streams of the real tokenize() for every string TLC enumerates (general alphabet <=3, f-string '
                      'alphabet <=4 after an f-string start, indentation alphabet <=4), class walks, pool strings, corpus chunks '
